@@ -29,7 +29,7 @@ def judge_object(ctx, case):
     from formulae.categorical import Sum, Treatment
 
     n, ref_i, enc, kind = case["n"], case["ref"], case["encoding"], case["levels_kind"]
-    levels = [f"l{i:02d}" for i in range(n)] if kind == "str" else list(range(3, 3 + n))
+    levels = [f"l{i:02d}" for i in range(n)] if kind == "str" else ([3, 0, 7, 12, 5, 1, 9, 4, 30, 2, 8, 6][:n] if kind == "int" else list(range(n)))
     ref = None if ref_i is None else levels[ref_i]
     nt = n >= 3 and ref_i not in (None, 0, n - 1)
     ctx.count(core.canon(case), nt, ["object:" + enc, "levels:" + kind], stratum="object")
@@ -95,14 +95,19 @@ def judge_levels(ctx, case):
     present = sorted(set(frame[var].tolist()))
     lv = [present[i] for i in perm]
     ref = None if case.get("ref") is None else lv[case["ref"]]
+    nested = fn.startswith("C(")
+    inner = fn[2:] if nested else fn
     args = f"{var}"
     if ref is not None:
-        args += f", {ref!r}" if fn in ("T", "S") else (f", Treatment({ref!r})" if fn == "C" else "")
+        args += f", {ref!r}" if inner in ("T", "S") else (f", Treatment({ref!r})" if inner == "C" else "")
     args += ", levels=lv"
-    call = f"{fn}({args})"
+    call = f"{inner}({args})"
+    if nested:
+        call = f"C({call})"  # the outer C() must inherit coding, reference and level order from the inner call
+    fn = inner
     formula = f"y ~ {'1' if case['intercept'] else '0'} + {call}"
     nt = lv != sorted(lv) or (n >= 3 and case.get("ref") not in (None, 0, n - 1))
-    ctx.count(core.canon(case), nt, ["design:" + fn, "intercept:%s" % case["intercept"]], sample=dict(case, formula=formula, lv=lv), stratum="levels=")
+    ctx.count(core.canon(case), nt, ["design:" + case["fn"], "intercept:%s" % case["intercept"]], sample=dict(case, formula=formula, lv=lv), stratum="levels=")
     full = dict(case, formula=formula, lv=[str(x) for x in lv])
     try:
         with core.Guard():
@@ -157,7 +162,7 @@ def judge_badref(ctx, case):
 
 
 # ---- (c) interchangeability ---------------------------------------------------------------------------------
-CODINGS = ["plain", "C", "T", "Tref", "S", "Somit", "CSum", "CTreat", "Clevels", "Tlevels"]
+CODINGS = ["plain", "C", "T", "Tref", "S", "Somit", "CSum", "CTreat", "Clevels", "Tlevels", "CC", "CTref", "CSomit"]
 
 
 def spell(base, coding, levels, pick, perm):
@@ -181,6 +186,12 @@ def spell(base, coding, levels, pick, perm):
         return f"C({base}, Treatment({r!r}))"
     if coding == "Clevels":
         return f"C({base}, levels=lv_{base})"
+    if coding == "CC":
+        return f"C(C({base}, Sum))"
+    if coding == "CTref":
+        return f"C(T({base}, {r!r}))"
+    if coding == "CSomit":
+        return f"C(S({base}, {r!r}), levels=lv_{base})"
     return f"T({base}, levels=lv_{base})"
 
 
@@ -284,14 +295,14 @@ def _object_cases():
     for n in range(1, 13):
         for ref in [None] + list(range(n)):
             for enc in ("Treatment", "Sum"):
-                for kind in ("str", "int"):
+                for kind in ("str", "int", "int0"):
                     yield {"kind": "object", "n": n, "ref": ref, "encoding": enc, "levels_kind": kind}
 
 
 def _levels_cases(maxn):
     for n in range(2, maxn + 1):
         for perm in itertools.permutations(range(n)):
-            for fn in ("C", "T", "S"):
+            for fn in ("C", "T", "S", "C(T", "C(C", "C(S"):
                 for ic in (True, False):
                     for is_int in (False, True):
                         yield {"kind": "levels", "fn": fn, "perm": list(perm), "n": n, "int": is_int, "intercept": ic, "ref": None}
